@@ -61,7 +61,7 @@ enc! {
 
 /// map with three *concrete* distinct keys inserted out of order, symbolic values: sorted pairs
 #[kani::proof]
-#[kani::unwind(8)]
+#[kani::unwind(14)]
 pub fn c01q_map_3_concrete_keys() {
 	let v: [u16; 3] = kani::any();
 	let mut m = BTreeMap::new();
